@@ -386,9 +386,9 @@ func runCheck(prop, tier string, writeLock bool) int {
 		nRetOf[e.fnName] = e.nRet
 	}
 	{
-		locks0 := map[string][]string{}
-		loadJSON(filepath.Join(verifRoot, "obligations.lock.json"), &locks0)
-		for _, n := range locks0[prop] {
+		var l0 []string
+		loadJSON(filepath.Join(verifRoot, "locks", prop+".json"), &l0)
+		for _, n := range l0 {
 			lockedSet[n] = true
 		}
 	}
@@ -486,9 +486,14 @@ func runCheck(prop, tier string, writeLock bool) int {
 	}
 
 	// lock file
-	lockPath := filepath.Join(verifRoot, "obligations.lock.json")
+	// one lock file per property: /verif/locks/<prop>.json
+	lockPath := filepath.Join(verifRoot, "locks", prop+".json")
 	locks := map[string][]string{}
-	loadJSON(lockPath, &locks)
+	{
+		var l0 []string
+		loadJSON(lockPath, &l0)
+		locks[prop] = l0
+	}
 	for fn, n := range nRetOf {
 		seenLock[fn+"/cover/nret="+strconv.Itoa(n)] = true
 	}
@@ -499,7 +504,8 @@ func runCheck(prop, tier string, writeLock bool) int {
 		}
 		sort.Strings(names)
 		locks[prop] = names
-		b, _ := json.MarshalIndent(locks, "", " ")
+		os.MkdirAll(filepath.Dir(lockPath), 0o755)
+		b, _ := json.MarshalIndent(names, "", " ")
 		os.WriteFile(lockPath, b, 0o644)
 		fmt.Printf("lock: %d clause-level obligations recorded for %s\n", len(names), prop)
 		for k, v := range vacuity {
